@@ -1702,12 +1702,20 @@ impl<'a> CompositionGraphEncoder<'a> {
     }
 
     fn import(&self, state: &mut State, name: &str, types: &Types, kind: ItemKind) -> u32 {
+        // An import under the interface's own name (or a semver-compatible version
+        // of it) is *the* import of that interface; an import of the same interface
+        // under any other name (e.g. `import x as "y": a:b/c`) is a distinct import.
+        let provides_interface =
+            |id: &str| id == name || wac_types::are_semver_compatible(id, name);
+
         // Check to see if this is an import of an interface that's already been
         // imported; this can happen based on importing of shared dependencies
         if let ItemKind::Instance(id) = kind {
             if let Some(id) = &types[id].id {
-                if let Some(index) = state.current.instances.get(id) {
-                    return *index;
+                if provides_interface(id) {
+                    if let Some(index) = state.current.instances.get(id) {
+                        return *index;
+                    }
                 }
             }
         }
@@ -1748,7 +1756,7 @@ impl<'a> CompositionGraphEncoder<'a> {
                 state.current.type_indexes.insert(ty, index);
             }
             ItemKind::Instance(id) => {
-                if let Some(id) = &types[id].id {
+                if let Some(id) = types[id].id.as_ref().filter(|id| provides_interface(id)) {
                     log::debug!(
                         "interface `{id}` is available for aliasing as instance index {index}"
                     );
